@@ -37,6 +37,22 @@ hash_of_str (const char * str)
 	return marker ;
 } /* hash_of_str */
 
+/*
+** The four character marker of a chunk id. An id of fewer than four characters
+** is padded with spaces (as RIFF, IFF and CAF prescribe), a longer one is cut.
+*/
+static uint32_t
+marker_of_str (const char * str)
+{	union
+	{	uint32_t marker ;
+		char str [5] ;
+	} u ;
+
+	snprintf (u.str, sizeof (u.str), "%-4.4s", str) ;
+
+	return u.marker ;
+} /* marker_of_str */
+
 SF_CHUNK_ITERATOR *
 psf_get_chunk_iterator (SF_PRIVATE * psf, const char * marker_str)
 {	const READ_CHUNKS * pchk = &psf->rchunks ;
@@ -61,18 +77,12 @@ psf_get_chunk_iterator (SF_PRIVATE * psf, const char * marker_str)
 	if (marker_str)
 	{	int64_t hash ;
 		size_t marker_len ;
-		union
-		{	uint32_t marker ;
-			char str [5] ;
-		} u ;
-
-		snprintf (u.str, sizeof (u.str), "%s", marker_str) ;
 
 		marker_len = strlen (marker_str) ;
 		if (marker_len > 64)
 			marker_len = 64 ;
 
-		hash = marker_len > 4 ? hash_of_str (marker_str) : u.marker ;
+		hash = marker_len > 4 ? hash_of_str (marker_str) : marker_of_str (marker_str) ;
 
 		memcpy (psf->iterator->id, marker_str, marker_len) ;
 		psf->iterator->id_size = (unsigned) marker_len ;
@@ -165,14 +175,8 @@ int
 psf_find_read_chunk_str (const READ_CHUNKS * pchk, const char * marker_str)
 {	uint64_t hash ;
 	uint32_t k ;
-	union
-	{	uint32_t marker ;
-		char str [5] ;
-	} u ;
 
-	snprintf (u.str, sizeof (u.str), "%s", marker_str) ;
-
-	hash = strlen (marker_str) > 4 ? hash_of_str (marker_str) : u.marker ;
+	hash = strlen (marker_str) > 4 ? hash_of_str (marker_str) : marker_of_str (marker_str) ;
 
 	for (k = 0 ; k < pchk->used ; k++)
 		if (pchk->chunks [k].hash == hash)
@@ -202,19 +206,14 @@ psf_find_read_chunk_iterator (const READ_CHUNKS * pchk, const SF_CHUNK_ITERATOR 
 int
 psf_store_read_chunk_str (READ_CHUNKS * pchk, const char * marker_str, sf_count_t offset, uint32_t len)
 {	READ_CHUNK rchunk ;
-	union
-	{	uint32_t marker ;
-		char str [5] ;
-	} u ;
 	size_t marker_len ;
 
 	memset (&rchunk, 0, sizeof (rchunk)) ;
-	snprintf (u.str, sizeof (u.str), "%s", marker_str) ;
 
 	marker_len = strlen (marker_str) ;
 
-	rchunk.hash = marker_len > 4 ? hash_of_str (marker_str) : u.marker ;
-	rchunk.mark32 = u.marker ;
+	rchunk.mark32 = marker_of_str (marker_str) ;
+	rchunk.hash = marker_len > 4 ? hash_of_str (marker_str) : rchunk.mark32 ;
 	rchunk.offset = offset ;
 	rchunk.len = len ;
 
@@ -226,12 +225,7 @@ psf_store_read_chunk_str (READ_CHUNKS * pchk, const char * marker_str, sf_count_
 
 int
 psf_save_write_chunk (WRITE_CHUNKS * pchk, const SF_CHUNK_INFO * chunk_info)
-{	union
-	{	uint32_t marker ;
-		char str [5] ;
-		/* Update snprintf() format string below when changing this */
-	} u ;
-	uint32_t len ;
+{	uint32_t marker, len ;
 
 	if (pchk->count == 0)
 	{	pchk->used = 0 ;
@@ -258,10 +252,10 @@ psf_save_write_chunk (WRITE_CHUNKS * pchk, const SF_CHUNK_INFO * chunk_info)
 	len = chunk_info->datalen ;
 	while (len & 3) len ++ ;
 
-	snprintf (u.str, sizeof (u.str), "%.4s", chunk_info->id) ;
+	marker = marker_of_str (chunk_info->id) ;
 
-	pchk->chunks [pchk->used].hash = strlen (chunk_info->id) > 4 ? hash_of_str (chunk_info->id) : u.marker ;
-	pchk->chunks [pchk->used].mark32 = u.marker ;
+	pchk->chunks [pchk->used].hash = strlen (chunk_info->id) > 4 ? hash_of_str (chunk_info->id) : marker ;
+	pchk->chunks [pchk->used].mark32 = marker ;
 	pchk->chunks [pchk->used].len = len ;
 	pchk->chunks [pchk->used].data = psf_memdup (chunk_info->data, chunk_info->datalen) ;
 
